@@ -17,6 +17,7 @@ import (
 	"strconv"
 	"strings"
 	"sync"
+	"sync/atomic"
 	"time"
 
 	"github.com/miekg/dns"
@@ -91,7 +92,8 @@ type universe struct {
 	markers []marker // index = id (0 unused)
 	failing map[string]bool
 	failed  []failureRec
-	cuts    []marker
+
+	internalCalls atomic.Int64 // stub invocations made by internal sub-queries (chase, prefetch)
 }
 
 func newUniverse() *universe {
@@ -362,6 +364,9 @@ func audienceOf(src netip.Prefix, scopeBits int) string {
 func (u *universe) stub(_ context.Context, req *stack.StubRequest) *stack.StubReply {
 	q := req.Q
 	p := pre{Name: asciiLower(q.Name), Type: q.Qtype, Class: q.Qclass, CD: req.CD}
+	if req.Internal {
+		u.internalCalls.Add(1)
+	}
 
 	var src netip.Prefix
 	hasSrc := false
